@@ -119,7 +119,7 @@ def build(e, cfg, d='/ds'):
         if ns > 1:
             amv[-1] = float('inf')
     ds.amv = amv
-    add('amplitudes', _arr(amv, vec(ns), 'float64'))
+    add('amplitudes', _arr(amv, vec(ns), cfg.get('amp_dtype', 'float64')))
     # ---- channels ----
     merged = cfg.get('merged')          # channel counts per probe of a merged dataset
     if merged:
@@ -307,7 +307,7 @@ class RealDS(object):
             save('spike_samples', vec(np.array(ks, dtype=tdt)), 'spikes.samples.npy')
         save('spike_templates', vec(np.array(case['st'], dtype=idt)))
         save('spike_clusters', vec(np.array(case['sc'], dtype=idt)))
-        am = np.array(case['am'], dtype=np.float64)
+        am = np.array(case['am'], dtype=cfg.get('amp_dtype', 'float64'))
         if cfg.get('nan') == 'amplitudes':
             am[0] = np.nan
             if ns > 1:
